@@ -12,7 +12,7 @@ Definition app_op (o : op) : bool :=
   match o with
   | OWrite _ _ | OTruncate _ | OCommitJournal _ | OInvalidateJournal | OWalHeader | OWalTruncate
   | OCommitWal _ _ | OCheckpoint | ODrop | OImport _ _ _ | OCommitJournalFail _ | OWriteJ _ _ => true
-  | OOpen | OSetWriteable _ | OReceive _ | ORetention _ _ _ => false
+  | OOpen | OSetWriteable _ | OReceive _ | ORetention _ _ _ | OZeroFill _ _ => false
   end.
 (* those among them that would change the replicated database if they went through *)
 Definition mutating (o : op) : bool :=
@@ -50,13 +50,15 @@ Definition answer_of (h : handler) (wr primary same_size has_wal : bool) : answe
   | HRemoveDB => if primary then AOk else AAccess
   | HTruncateJournal | HRemoveJournal => if wr then AOk else AOther
   | HCreateWAL => if has_wal then AOther else AOk
-  | HTruncateWAL | HRemoveWAL => if has_wal then AOk else AOther
+  | HTruncateWAL => if has_wal then (if wr then AOk else AAccess) else AOther   (* the lookup of a log that is not there fails first; fuse/wal_node.go Setattr *)
+  | HRemoveWAL => if wr then (if has_wal then AOk else AOther) else AAccess      (* fuse/root_node.go Remove *)
   | HImport => if primary then AOk else A503
   end.
 Definition changes_database (h : handler) : bool :=
   match h with
-  | HCreateDB | HWriteDB | HRemoveDB | HCreateJournal | HWriteJournal | HTruncateJournal | HRemoveJournal | HWriteWAL | HImport => true
-  | HTruncateDB | HCreateWAL | HTruncateWAL | HRemoveWAL => false   (* same-size truncate; wal file of a node that writes no WAL is empty *)
+  | HCreateDB | HWriteDB | HRemoveDB | HCreateJournal | HWriteJournal | HTruncateJournal | HRemoveJournal | HWriteWAL | HImport
+  | HTruncateWAL | HRemoveWAL => true     (* the log of a node that has just lost its write authority still holds what it committed *)
+  | HTruncateDB | HCreateWAL => false     (* same-size truncate; an empty log *)
   end.
 
 Definition acode (a : answer) : N := match a with AOk => 0 | AAccess => 13 | AOther => 5 | A503 => 503 end.
